@@ -575,7 +575,7 @@ class Interp:
             it = self.eval(s.iter, env, fi)
             seq = self.iterate(it, s, fi)
             for n, item in enumerate(seq):
-                if n > MAX_LOOP:
+                if n > getattr(self, "max_loop", MAX_LOOP):
                     raise self.err("loop bound exceeded in abstract evaluation", s, fi)
                 self.assign(s.target, item, env, fi)
                 try:
@@ -590,7 +590,7 @@ class Interp:
             n = 0
             while self.truth(s.test, env, fi):
                 n += 1
-                if n > MAX_LOOP:
+                if n > getattr(self, "max_loop", MAX_LOOP):
                     raise self.err("while-loop bound exceeded in abstract evaluation", s, fi)
                 try:
                     self.exec_block(s.body, env, fi)
